@@ -259,6 +259,8 @@ class CoreGen:
             x = self.fresh("v")
             const = r.chance(8)
             static = (not glob) and r.chance(5) and "no_static" not in self.features
+            if static and ty.startswith("u") and "static_unsigned" in self.gates:
+                ty = ty[1:]
             e = self.fit(sc, ty, 0 if glob else 2, pure=static or glob)
             if glob or static:
                 lo, hi = RANGE[ty]
@@ -270,6 +272,8 @@ class CoreGen:
             return "(decl %s %s %s %s)" % (fl, ty, x, e)
         if k < 9:
             ty = r.choice(["int", "int", "long", "tiny", "short", "uint"])
+            if glob and ty == "uint" and "global_unsigned_array" in self.gates:
+                ty = "int"
             dims = [r.range(1, 4) for _ in range(r.choice([1, 1, 1, 2, 2, 3]))]
             x = self.fresh("a")
             n = 1
@@ -288,27 +292,28 @@ class CoreGen:
         return self.decl(sc, glob)
 
     def lvalue(self, sc):
-        """(sexp, ty, is_element) of a writable location"""
+        """(sexp, ty, is_element, kind) of a writable location; kind: var | elem1 | elemmd | member"""
         r = self.r
         k = r.below(10)
         pool = [v for v in sc.scalars + self.globals.scalars if not v[2] and not any(v[0] == l[0] for l in sc.loopvars)]
         if k < 6 and pool:
             v = r.choice(pool)
-            return "(var %s)" % v[0], v[1], False
+            return "(var %s)" % v[0], v[1], False, "var"
         arrs = [a for a in sc.arrays + self.globals.arrays if not a[3]]
         if k < 8 and arrs:
             a = r.choice(arrs)
-            return "(idx %s %s)" % (a[0], " ".join(self.index(sc, d) for d in a[2])), a[1], True
+            return ("(idx %s %s)" % (a[0], " ".join(self.index(sc, d) for d in a[2])), a[1], True,
+                    "elem1" if len(a[2]) == 1 else "elemmd")
         if sc.structs:
             s = r.choice(sc.structs)
             fields = [f for (sn, fs) in self.structs if sn == s[1] for f in fs]
             f = r.choice(fields)
             if f[2]:
-                return "(fldidx %s %s %s)" % (s[0], f[1], " ".join(self.index(sc, d) for d in f[2])), f[0], True
-            return "(fld %s %s)" % (s[0], f[1]), f[0], False
+                return "(fldidx %s %s %s)" % (s[0], f[1], " ".join(self.index(sc, d) for d in f[2])), f[0], True, "member"
+            return "(fld %s %s)" % (s[0], f[1]), f[0], False, "member"
         if pool:
             v = r.choice(pool)
-            return "(var %s)" % v[0], v[1], False
+            return "(var %s)" % v[0], v[1], False, "var"
         return None
 
     def stmt(self, sc, depth, in_loop, budget):
@@ -323,12 +328,25 @@ class CoreGen:
                 return self.decl(sc)
             self.count("assign")
             pure = lv[2] and "elem_assign_rhs_once" in self.gates
-            return "(assign %s %s)" % (lv[0], self.fit(sc, lv[1], 2, pure))
+            strict = (lv[3] == "elemmd" and "elem_range_md" in self.gates) or \
+                     (lv[3] == "member" and "member_range" in self.gates)
+            fitf = self.fit_strict if strict else self.fit
+            rhs = fitf(sc, lv[1], 2, pure)
+            if lv[3] != "var" and "ternary_rhs_elem_member" in self.gates:
+                for _ in range(8):
+                    if "(tern" not in rhs:
+                        break
+                    rhs = fitf(sc, lv[1], 1, pure)
+                if "(tern" in rhs:
+                    rhs = lit(r.range(0, 9))
+            return "(assign %s %s)" % (lv[0], rhs)
         if k < 44:
             lv = self.lvalue(sc)
             if lv is None or lv[1] == "bool":
                 return self.decl(sc)
             if lv[2] and "compound_elem" in self.gates:
+                return self.decl(sc)
+            if (lv[3] == "member" and "member_range" in self.gates) and lv[1] not in ("long",):
                 return self.decl(sc)
             op = r.choice(["add", "sub", "mul", "div", "mod", "shl", "shr", "band", "bor", "bxor"])
             self.count("compound")
